@@ -118,6 +118,7 @@ def _fam():
     add("ComplexMCA", C.ComplexMCA, "cross", "CapCross", dict(n_modes=3, n_pca_modes=4), rot=C.ComplexMCARotator,
         rot_params=dict(n_modes=3, power=1), complex_=True)
     add("multiCCA", M.CCA, "multi", "CapMulti", dict(n_modes=2, pca=False))
+    add("EOFnc", S.EOF, "single", "CapSingle", dict(n_modes=3, center=False, standardize=True), rot=S.EOFRotator, rot_params=dict(n_modes=2, power=1))
     # the same classes on data with two sample dimensions (stacked sample MultiIndex)
     add("EOF2s", S.EOF, "single", "CapSingle", dict(n_modes=3), rot=S.EOFRotator, rot_params=dict(n_modes=3, power=1), multi_sample=True)
     add("MCA2s", C.MCA, "cross", "CapCross", dict(n_modes=3, n_pca_modes=4), rot=C.MCARotator, rot_params=dict(n_modes=3, power=1), multi_sample=True)
